@@ -278,6 +278,7 @@ func cmdWorker(args []string) int {
 	knownPath := fs.String("known", "", "")
 	out := fs.String("out", "", "")
 	shrinkBudget := fs.Int("shrink", 400, "")
+	maxSigs := fs.Int("maxsigs", 40, "distinct new signatures shrunk per worker")
 	fs.Parse(args)
 	runtime.GOMAXPROCS(2)
 	p := props.Get(*prop)
@@ -356,7 +357,7 @@ func cmdWorker(args []string) int {
 				continue
 			}
 			sig := v.Sig()
-			if seenSig[sig] || len(w.Violations) >= 40 {
+			if seenSig[sig] || len(w.Violations) >= *maxSigs {
 				continue
 			}
 			seenSig[sig] = true
@@ -565,6 +566,7 @@ func cmdRun(args []string) int {
 	knownPath := fs.String("known", "", "")
 	level := fs.String("level", "exploration", "")
 	shrinkBudget := fs.Int("shrink", 400, "")
+	maxSigs := fs.Int("maxsigs", 40, "distinct new signatures shrunk per worker")
 	asProp := fs.String("as", "", "property id to report under (default: -prop)")
 	extra := fs.String("extra", "", "evidence file of a companion layer to embed")
 	fs.Parse(args)
@@ -608,7 +610,7 @@ func cmdRun(args []string) int {
 		out := filepath.Join(tmp, fmt.Sprintf("w%d.json", k))
 		cmd := exec.Command(self, "worker", "-prop", *prop, "-tier", *tierS, "-seed", fmt.Sprint(*seed),
 			"-offset", fmt.Sprint(k), "-step", fmt.Sprint(*workers), "-runs", fmt.Sprint(*runs),
-			"-deadline", fmt.Sprint(deadline), "-known", *knownPath, "-out", out, "-shrink", fmt.Sprint(*shrinkBudget))
+			"-deadline", fmt.Sprint(deadline), "-known", *knownPath, "-out", out, "-shrink", fmt.Sprint(*shrinkBudget), "-maxsigs", fmt.Sprint(*maxSigs))
 		cmd.Stderr = os.Stderr
 		if raceEnabled {
 			cmd.Env = append(os.Environ(), "GORACE=halt_on_error=1 exitcode=66 log_path="+filepath.Join(tmp, fmt.Sprintf("race%d", k)))
